@@ -453,6 +453,46 @@ def huge_int_pow(rng, cls):
     _ = prog
 
 
+def ties_and_aliases(rng, cls):
+    """(a) float operands exactly equal to the real part (differences of exactly zero keep the sign the
+    Rust operation gives); (b) augmented assignment rebinds the name: the object an alias still refers
+    to keeps its value"""
+    p = [rnd_part(rng) for _ in range(NPARTS[cls])]
+    x = make_scalar(cls, p)
+    f = p[0]
+    for op in ("rsub", "subf", "radd", "addf", "rdiv", "divf", "rmul"):
+        ff = -f if op in ("radd", "addf") else f
+        prog = [{"op": "input", "i": 0}, {"op": op, "a": 0, "f": ff}]
+        case = {"class": cls, "x": p, "op": op, "f": ff}
+        ACC.observe("tie:%s|%s" % (op, cls))
+        try:
+            pv = eval_py(prog, [x])
+        except BaseException as e:  # noqa
+            _reraise_control(e)
+            ACC.violate("tie:%s:%s:raised" % (op, cls), "%s with a float equal to the real part raised %r" % (op, e), case)
+            continue
+        mv = ndverif.mirror_eval(cls, (0, 0), mirror_json(prog), [(p, [])])
+        compare_value("%s.%s[tie]" % (cls, op), "tie:%s|%s" % (op, cls), pv[1], mv[1], case)
+    import operator
+    q = [rnd_part(rng) for _ in range(NPARTS[cls])]
+    for name, iop, bop in (("iadd", operator.iadd, operator.add), ("isub", operator.isub, operator.sub), ("imul", operator.imul, operator.mul), ("itruediv", operator.itruediv, operator.truediv)):
+        for rhs_kind in ("float", "dual"):
+            a = make_scalar(cls, p)
+            rhs = 1.75 if rhs_kind == "float" else make_scalar(cls, q)
+            before = repr(a)
+            want = repr(bop(make_scalar(cls, p), rhs))
+            alias = a
+            ACC.observe("augmented-assignment:%s:%s|%s" % (name, rhs_kind, cls))
+            try:
+                a = iop(a, rhs)
+            except BaseException as e:  # noqa
+                _reraise_control(e)
+                ACC.violate("augmented-assignment:%s:raised" % cls, "%s with a %s raised %r" % (name, rhs_kind, e), {"class": cls})
+                continue
+            if repr(a) != want or repr(alias) != before:
+                ACC.violate("augmented-assignment:%s" % cls, "after `a %s= <%s>`: a is %r (expected %r), the object an alias refers to is %r (was %r)" % (name[1:], rhs_kind, a, want, alias, before), {"class": cls, "x": p, "op": name})
+
+
 def nested_from_re(rng, cls):
     """from_re of a nested class takes a Dual64: all of it must arrive (value and derivative)"""
     a, b = rnd_part(rng), rnd_part(rng)
@@ -646,27 +686,29 @@ def run_driver(rng, name):
     seen["container"] = rng.choice(["list", "list", "tuple", "ndarray"])
 
     y, ijk, dims = [], (0, 0, 0), (0, 0)
+    # every driver is also called with its documented parameter names as keywords (in another order)
+    kw = rng.random() < 0.35
     if name in ("first_derivative", "second_derivative", "third_derivative"):
         x = x_of(1)
         progs = [gen_program(rng, 1, x, 14)]
-        call = lambda f: getattr(nd, name)(f, x[0])
+        call = (lambda f: getattr(nd, name)(f, x[0])) if not kw else (lambda f: getattr(nd, name)(x=x[0], f=f))
         key = name
     elif name == "second_partial_derivative":
         x, y = x_of(1), x_of(1)
         progs = [gen_program(rng, 2, x + y, 14)]
-        call = lambda f: nd.second_partial_derivative(f, x[0], y[0])
+        call = (lambda f: nd.second_partial_derivative(f, x[0], y[0])) if not kw else (lambda f: nd.second_partial_derivative(y=y[0], x=x[0], f=f))
         key = name
     elif name == "third_partial_derivative":
         x = x_of(3)
         progs = [gen_program(rng, 3, x, 14)]
-        call = lambda f: nd.third_partial_derivative(f, x[0], x[1], x[2])
+        call = (lambda f: nd.third_partial_derivative(f, x[0], x[1], x[2])) if not kw else (lambda f: nd.third_partial_derivative(z=x[2], f=f, y=x[1], x=x[0]))
         key = name
     elif name == "third_partial_derivative_vec":
         n = 1 + rng.randrange(4)
         x = x_of(n)
         ijk = (rng.randrange(n), rng.randrange(n), rng.randrange(n))
         progs = [gen_program(rng, n, x, 14)]
-        call = lambda f: nd.third_partial_derivative_vec(f, x, *ijk)
+        call = (lambda f: nd.third_partial_derivative_vec(f, x, *ijk)) if not kw else (lambda f: nd.third_partial_derivative_vec(f, x, k=ijk[2], j=ijk[1], i=ijk[0]))
         i, j, k = ijk
         key = "%s|n%d|%s" % (name, n, "iii" if i == j == k else "iik" if i == j else "ijj" if j == k else "iji" if i == k else "ijk")
     elif name in ("gradient", "hessian"):
@@ -674,7 +716,7 @@ def run_driver(rng, name):
         x = x_of(n)
         dims = (n, 0)
         progs = [gen_program(rng, n, x, 10 + n)]
-        call = lambda f: getattr(nd, name)(f, x)
+        call = (lambda f: getattr(nd, name)(f, x)) if not kw else (lambda f: getattr(nd, name)(x=x, f=f))
         key = "%s|n%d%s" % (name, n, "-dyn" if n > 10 else "")
     elif name == "jacobian":
         n = 1 + rng.randrange(10)
@@ -682,7 +724,7 @@ def run_driver(rng, name):
         x = x_of(n)
         dims = (n, 0)
         progs = [gen_program(rng, n, x, 8 + n) if rng.random() > 0.15 or i == m - 1 else [{"op": "from_re", "f": 2.5}] for i in range(m)]
-        call = lambda f: nd.jacobian(f, x)
+        call = (lambda f: nd.jacobian(f, x)) if not kw else (lambda f: nd.jacobian(x=x, f=f))
         key = "jacobian|m%d|n%d|returns-%s" % (m, n, seen["container"])
     elif name == "partial_hessian":
         if rng.random() < 0.25:
@@ -692,12 +734,14 @@ def run_driver(rng, name):
         x, y = x_of(m), x_of(n)
         dims = (m, n)
         progs = [gen_program(rng, m + n, x + y, 10 + m + n)]
-        call = lambda f: nd.partial_hessian(f, x, y)
+        call = (lambda f: nd.partial_hessian(f, x, y)) if not kw else (lambda f: nd.partial_hessian(y=y, x=x, f=f))
         key = "partial_hessian|%dx%d%s" % (m, n, "-dyn" if max(m, n) > 5 else "")
     else:
         raise ValueError(name)
     case = {"driver": name, "programs": progs, "x": x, "y": y, "ijk": list(ijk)}
     ACC.observe("driver:" + key)
+    if kw:
+        ACC.observe("driver-keyword-call:" + name)
     try:
         res = call(cb_factory(progs, len(x) + len(y)))
     except BaseException as e:  # noqa  (a Rust panic arrives as pyo3's PanicException, a BaseException)
@@ -805,6 +849,7 @@ def main():
             for cls in NPARTS:
                 numpy_ops(rng, cls)
                 huge_int_pow(rng, cls)
+                ties_and_aliases(rng, cls)
                 if cls in ("HyperDualDual64", "Dual2Dual64", "Dual3Dual64"):
                     nested_from_re(rng, cls)
         for d in drivers:
